@@ -1050,3 +1050,44 @@ ROWS.append({"id": "U36", "prop": "C17", "expect": "fire", "rule": "R-C17-BYVALU
 ROWS.append({"id": "U37", "prop": "C17", "expect": "silent", "what": "key components in the other order, through a temporary", "edits": [
     {"file": _EF, "old": _IK, "new": "      info = sig.issuer_key_info\n      point = (ec_util.PublicPoint(info), info.curve_type)"},
     {"file": _EF, "old": _IL, "new": "      for i in points[(ec_util.PublicPoint(key.ec_info), key.ec_info.curve_type)]:"}]})
+
+
+# ---------------------------------------------------------------------------------- seeded round 10
+S("W01", "C01", "C01-r10a", "R-C01-WEAK", "util.SetTestResult now sets test_info.weak only in the branch that appends a NEW test-resu")
+S("W02", "C01", "C01-r10b", "R-C01-CERT", "rsa_util.FermatFactor: the incremental update of b2 = a^2 - n was 'folded' from (b2 += a; ")
+S("W03", "C02", "C02-r10a", "R-C02-CODEC", "EcCurve.ExtendedBatchDL (ec_util.py) now 'canonicalises' the discrete log it returns with ")
+S("W04", "C02", "C02-r10b", "R-C02-SANITISE", "_IssuerDLogs (ecdsa_sig_checks.py) now drops zero guesses before the verifying batch multi")
+S("W05", "C03", "C03-r10a", "R-C03-TREE", "ntheory_util.ExtendedProductTree: the unpaired last node of an odd-length tree level is ca")
+S("W06", "C03", "C03-r10b", "R-C03-VERDICT", "rsa_aggregate_checks.CheckGCDN1: the constructor now stores only gcd_bound.bit_length() an")
+S("W07", "C04", "C04-r10a", "R-C04-MSB", "CheckUnseededRand.Check now caches the per-prime-size list of guesses (listed unseeded out")
+S("W08", "C04", "C04-r10b", "R-C04-FERMAT", "rsa_util.FermatFactor was 'simplified' to start the search at a = floor(sqrt(n)) (b2 = a*a")
+S("W09", "C05", "C05-r10a", "R-C05-HW", "In rsa_util.CheckLowHammingWeight the prime size was rewritten from ceil(bit_length/2) = (")
+S("W10", "C05", "C05-r10b", "R-C05-SIZES", "In CheckBitPatterns.Check the per-key 'skip sizes above n.bit_length() // 8' test inside t")
+S("W11", "C06", "C06-r10a", "R-C06-KEYGEN", "keypair_generator.Generator.generate_key: the 'sort so that p >= q' step was hoisted out o")
+S("W12", "C06", "C06-r10b", "R-C06-DENY-FORMAT", "CheckOpensslDenylist.Check: the 'Modulus=<HEX>' string that is hashed for the openssl-vuln")
+S("W13", "C07", "C07-r10a", "R-C07-NEIGHBOUR", "In ecdsa_sig_checks.CheckCr50U2f.Check the loop that stores the per-curve results enumerat")
+S("W14", "C07", "C07-r10b", "R-C07-NEIGHBOUR", "In ec_util.EcCurve.ExtendedBatchDL the list of transformed points handed to BatchDL is now")
+S("W15", "C08", "C08-r10a", "R-C08-FEED", "EcCurve.TransformOrderLen (ec_util.py) now computes the right-shift of an over-long messag")
+S("W16", "C08", "C08-r10b", "R-C08-OWN", "BiasedBaseCheck.Check (ecdsa_sig_checks.py) now creates the issuer_dlogs dict once before ")
+S("W17", "C09", "C09-r10a", "R-C09-TRUNC", "EcCurve.TransformOrderLen (ec_util.py) now right-shifts a too-long hash only when its inte")
+S("W18", "C09", "C09-r10b", "R-C09-BYTES", "util.Hex2Bytes now 'tolerates a 0x prefix' via hexstr_val.strip().lstrip('0x'); str.lstrip")
+S("W19", "C10", "C10-r10a", "R-C10-FORMS", "EcCurve.ExtendedBatchDL (paranoid_crypto/lib/ec_util.py): quad_words is now computed first")
+S("W20", "C10", "C10-r10b", "R-C10-DUP", "EcCurve.BatchDLOfDifferences (paranoid_crypto/lib/ec_util.py): a batch key that turns out ")
+S("W21", "C11", "C11-r10a", "R-C11-DISPATCH", "EcCurve.AddJacobian now detects the doubling case by tuple identity of the two Jacobian tr")
+S("W22", "C11", "C11-r10b", "R-C11-COMB", "EcCurve.BatchMultiplyG no longer reduces every scalar modulo the group order; it skips the")
+S("W23", "C12", "C12-r10a", "R-C12-BITS", "util.Bits (the int -> +1/-1 array conversion used by RandomWalk and Spectral) now pads wit")
+S("W24", "C12", "C12-r10b", "R-C12-CONSIST", "RankDistribution's shortcut that returns NIST's precomputed asymptotic rank probabilities ")
+S("W25", "C13", "C13-r10a", "R-C13-STATE", "In TestStructure.Run the repeat bound (Fisher combination of the repeat level) was hoisted")
+S("W26", "C13", "C13-r10b", "R-C13-RANK", "In extended_nist_suite.LargeBinaryMatrixRank the loop over matrix sizes was changed from `")
+S("W27", "C14", "C14-r10a", "R-C14-BM", "Added an early exit to the main loop of berlekamp_massey.LinearComplexityNative that stops")
+S("W28", "C14", "C14-r10b", "R-C14-CLOSED", "In berlekamp_massey.LfsrCount the lower-half branch 'int(2 * 4**(m - 1))' was rewritten as")
+S("W29", "C16", "C16-r10a", "R-C16-ONCE", "rsa_util.BatchGCD got an early exit ('nothing to compare against') for fewer than two dist")
+S("W30", "C16", "C16-r10b", "R-C16-ENTRY", "In rsa_single_checks.CheckLowHammingWeight.Check the documented severity downgrade for a m")
+S("W31", "C17", "C17-r10a", "R-C17-CACHE", "In EcCurve.BatchDL (paranoid_crypto/lib/ec_util.py) the giant-step size was changed from t")
+S("W32", "C17", "C17-r10b", "R-C17-BYVALUE", "In EcCurve.BatchDLOfDifferences (paranoid_crypto/lib/ec_util.py) the inner comparison loop")
+S("W33", "C18", "C18-r10a", "R-C18-INVERT", "EcCurve.BatchAddX no longer reduces the x-difference p[0]-q[0] modulo the field prime befo")
+S("W34", "C18", "C18-r10b", "R-C18-ALIGN", "util.GetAttachedFactors parses the stored factor strings with int(f_hex) (base 10) while u")
+S("W35", "C19", "C19-r10a", "R-C19-LINALG", "In linalg_util.echelon_form, when a zero pivot row is rotated towards the bottom, the righ")
+S("W36", "C19", "C19-r10b", "R-C19-SQRT", "In ntheory_util.Sqrt2exp the brute-force fall-back branch for k < 3 now compares x*x % 2**")
+S("W37", "C20", "C20-r10a", "R-C20-WIDTH", "XorShift128plus.RandomBits computes the number of 64-bit blocks as n // 64 + 1 instead of ")
+S("W38", "C20", "C20-r10b", "R-C20-PURE", "XorShiftStar.RandomBits now treats a seed whose low 64 bits are zero like a missing seed: ")
